@@ -104,6 +104,19 @@ PROPS = {
         "assumptions": ["proxySvc.start (package main): the starter is already receiving when ListenAndServe fails; not exercised here",
                         "fair scheduling by the Go runtime"],
     },
+    "C17": {
+        "proof_files": ["Proofs/StoreFacts.v", "Proofs/ConfigFacts.v"],
+        "runs": [{"engine": "config", "args": [], "n_quick": 200, "n_thorough": 15000, "netns": True}],
+        "trivial_tags": [r"^rejected$"],
+        "rule": "random option sets (repeated -listen, 0-4 -profile entries of every condition kind incl. interfaces and the deprecated -config "
+                "spelling, 0-3 -forwarder entries, every boolean / duration / size / uint option incl. values above 65535) through the real "
+                "Config.Parse(-config-file) + Save in a child process, a fresh Parse of the stored file, then `config set` of one option and another "
+                "fresh load; judged: the effective configuration (scalars, listen list, Profiles.Get on 6 probe clients, Forwarders.Get on 8 probe "
+                "names) is identical after reload, every other option survives `config set`, and the extracted generic store reloads the stored "
+                "lines to the same lists. non-trivial = accepted from the command line",
+        "assumptions": ["time.Duration String/ParseDuration, net.ParseCIDR/ParseMAC/InterfaceByName round-trip (environment, sampled)",
+                        "printable values without surrounding whitespace (the property's quantifier)"],
+    },
     "C18": {
         "proof_files": ["Proofs/DiscoveryFacts.v", "Proofs/ConfigFacts.v"],
         "runs": [{"engine": "discovery", "args": [], "n_quick": 2500, "n_thorough": 200000},
